@@ -351,10 +351,13 @@ XPeriod(s0) ==
              ELSE fin(Absent, m.v, Absent, XZone(s, m.i))
      ELSE LET y == XYear(s, 1)
           IN IF ~y.ok THEN XBad
-             ELSE IF XLit(s, y.i, "-") /\ XDigitsN(s, y.i + 1, 2).ok
-             THEN LET m == XDigitsN(s, y.i + 1, 2)
-                  IN IF m.v >= 1 /\ m.v <= 12 THEN fin(y.v, m.v, Absent, XZone(s, m.i)) ELSE XBad
-             ELSE fin(y.v, Absent, Absent, XZone(s, y.i))
+             ELSE \* gYearMonth, or - when that reading fails - gYear with a (possibly NEGATIVE) timezone:
+                  \* in 2020-05:00 the "-05" is the start of the zone, not a month
+                  LET asYM == IF XLit(s, y.i, "-") /\ XDigitsN(s, y.i + 1, 2).ok
+                              THEN LET m == XDigitsN(s, y.i + 1, 2)
+                                   IN IF m.v >= 1 /\ m.v <= 12 THEN fin(y.v, m.v, Absent, XZone(s, m.i)) ELSE XBad
+                              ELSE XBad
+                  IN IF asYM.ok THEN asYM ELSE fin(y.v, Absent, Absent, XZone(s, y.i))
 
 \* duration ::= '-'? 'P' ((nY)?(nM)?(nD)? ('T' (nH)?(nM)?(n('.'n)?S)?)?)  with at least one
 \* component, and at least one after 'T'.    Components absent = Absent.
